@@ -29,7 +29,8 @@ INTERVALS = [[0, 2], [0, 0], [0, 1], [5, 6], [0, 3], [7, 7], [3, 1], [H - 2, H],
 
 
 def accounts(ctx):
-    return [0, 1, H - 2, H - 1, ctx.rng("acct").randrange(2, H - 2)]
+    # 44/49/84: account numbers that collide with the purpose numbers
+    return [0, 1, H - 2, H - 1, ctx.rng("acct").randrange(2, H - 2), 49, 84, 44]
 
 
 def build(src, testnet):
@@ -128,14 +129,15 @@ def chk_vector(si, testnet, account, interval):
     return viols
 
 
-HIST_OPS = [["gen", 0, [0, 1]], ["gen", 0, [1, 3]], ["gen", 1, [0, 1]], ["gen", 0, [0, 0]], ["wasabi"], ["json_default_small"]]
+HIST_OPS = [["gen", 0, [0, 1]], ["gen", 0, [1, 3]], ["gen", 1, [0, 1]], ["gen", 0, [0, 0]], ["wasabi"], ["gen", 0, [1, 2]], ["gen", 0, [0, 4]],
+            ["json_default_small"]]
 
 
 class WalletHistories:
     """generate / export calls on ONE wallet object in sequence. canon = the history."""
 
     def ops(self, hist):
-        return HIST_OPS[:5]
+        return HIST_OPS[:7]
 
     def run(self, hist):
         w, m, mn, pw = build(SOURCES[0], True)
